@@ -49,6 +49,7 @@ type EQuant struct {
 	All    bool
 	Vars   []string
 	Types  []string // optional Go type of each bound variable ("*node"), "" for Int
+	Pats   [][]Expr // optional triggers: each {e1, e2} group is one multi-pattern
 	Lo, Hi Expr // optional range for the (single) variable: Lo <= v < Hi
 	Body   Expr
 }
@@ -68,7 +69,7 @@ type lexer struct {
 func lex(src string) ([]tok, error) {
 	var toks []tok
 	i := 0
-	ops := []string{"<==>", "==>", "::", "..", "&&", "||", "==", "!=", "<=", ">=", "<", ">", "+", "-", "*", "/", "%", "!", "&", "(", ")", "[", "]", ",", ".", "?", ":"}
+	ops := []string{"{", "}", "<==>", "==>", "::", "..", "&&", "||", "==", "!=", "<=", ">=", "<", ">", "+", "-", "*", "/", "%", "!", "&", "(", ")", "[", "]", ",", ".", "?", ":"}
 	for i < len(src) {
 		c := src[i]
 		if c == ' ' || c == '\t' || c == '\n' {
@@ -197,6 +198,20 @@ func (ps *parser) quant() Expr {
 			break
 		}
 		q := &EQuant{All: all, Vars: vars, Types: types}
+		for ps.isOp("{") {
+			ps.p++
+			var grp []Expr
+			for {
+				grp = append(grp, ps.cond())
+				if ps.isOp(",") {
+					ps.p++
+					continue
+				}
+				break
+			}
+			ps.expectOp("}")
+			q.Pats = append(q.Pats, grp)
+		}
 		if ps.isId("in") {
 			ps.p++
 			q.Lo = ps.add()
